@@ -753,7 +753,7 @@ class ReductionOp:
             a = dict(rng.choice(sorted(prev, key=lambda s_: s_["out"]))["args"])
             a["split_every"] = rng.choice([v for v in (2, 3, 4, 8) if v != a.get("split_every")])
             return a
-        f = rng.choice(REDUCTIONS)
+        f = rng.choice(["argmin", "argmax"]) if rng.random() < ctx.p_arg_reduction else rng.choice(REDUCTIONS)
         a = {"f": f}
         if 0 in x.shape and f in ("min", "max", "argmin", "argmax", "nanmax"):
             return None
@@ -1335,6 +1335,7 @@ class Ctx:
         self.p_random_sibling = 0.15
         self.p_reduction_twin = 0.15
         self.p_fine_chunks = 0.0
+        self.p_arg_reduction = 0.0
         self.p_simlock = 0.0
         self.p_lazy_source = 0.0
         self.p_asarray_false = 0.0
